@@ -1,0 +1,2054 @@
+//! Verification harness (test-only; see /verif).
+//!
+//! Executes a line-oriented op script (file named by env `VERIF_IN`) against the real sequencer
+//! code and writes canonical observation lines to the file named by env `VERIF_OUT`.
+//!
+//! Run with:
+//! `cargo test --offline -p astria-sequencer --features verif --lib app::verif::drive -- --exact`
+#![allow(
+    clippy::pedantic,
+    clippy::arithmetic_side_effects,
+    clippy::too_many_lines,
+    dead_code
+)]
+
+use std::{
+    collections::{
+        BTreeMap,
+        BTreeSet,
+        HashMap,
+    },
+    fmt::Write as _,
+    panic::AssertUnwindSafe,
+    sync::Arc,
+    time::Duration,
+};
+
+use astria_core::{
+    crypto::SigningKey,
+    primitive::v1::{
+        asset::{
+            Denom,
+            IbcPrefixed,
+        },
+        Address,
+        RollupId,
+        ADDRESS_LEN,
+    },
+    protocol::{
+        fees::v1::FeeComponents,
+        memos::v1::Ics20WithdrawalFromRollup,
+        transaction::v1::{
+            action::{
+                BridgeLock,
+                BridgeSudoChange,
+                BridgeTransfer,
+                BridgeUnlock,
+                CurrencyPairsChange,
+                FeeAssetChange,
+                FeeChange,
+                IbcRelayerChange,
+                IbcSudoChange,
+                Ics20Withdrawal,
+                InitBridgeAccount,
+                MarketsChange,
+                RecoverIbcClient,
+                RollupDataSubmission,
+                SudoAddressChange,
+                Transfer,
+                ValidatorUpdate,
+            },
+            Action,
+            TransactionBodyBuilder,
+        },
+    },
+    sequencerblock::v1::{
+        block::{
+            Deposit,
+            ExpandedBlockData,
+        },
+        DataItem,
+    },
+    upgrades::{
+        test_utils::UpgradesBuilder,
+        v1::Change,
+    },
+    Protobuf as _,
+};
+use bytes::Bytes;
+use cnidarium::{
+    Snapshot,
+    StateDelta,
+    StateRead,
+    Storage,
+};
+use futures::{
+    FutureExt as _,
+    StreamExt as _,
+};
+use penumbra_ibc::IbcRelay;
+use prost::Message as _;
+use sha2::{
+    Digest as _,
+    Sha256,
+};
+use tendermint::{
+    abci::{
+        self,
+        types::{
+            CommitInfo,
+            ExecTxResult,
+        },
+        Code,
+    },
+    block::{
+        Height,
+        Round,
+    },
+    Hash,
+    Time,
+};
+
+use super::{
+    vote_extension,
+    App,
+    BlockData,
+    ExecutedTransaction,
+    PostTransactionExecutionResult,
+    POST_TRANSACTION_EXECUTION_RESULT_KEY,
+};
+use crate::{
+    accounts::{
+        StateReadExt as _,
+        StateWriteExt as _,
+    },
+    app::StateReadExt as _,
+    assets::StateWriteExt as _,
+    authority::StateReadExt as _,
+    bridge::StateReadExt as _,
+    checked_actions::CheckedActionExecutionError,
+    checked_transaction::{
+        CheckedTransaction,
+        CheckedTransactionExecutionError,
+    },
+    fees::{
+        StateReadExt as _,
+        StateWriteExt as _,
+    },
+    ibc::{
+        StateReadExt as _,
+        StateWriteExt as _,
+    },
+    proposal::commitment::generate_rollup_datas_commitment,
+    storage::keys::AccountPrefixer,
+    test_utils::{
+        astria_address,
+        dummy_extended_commit_info,
+        transactions_with_extended_commit_info_and_commitments,
+        Fixture,
+        IBC_SUDO_ADDRESS,
+        TEN_QUINTILLION,
+    },
+};
+
+const ACCOUNT_COUNT: u8 = 16;
+const BASE_TIME_SECS: i64 = 1_744_036_762;
+const CHAIN_ID: &str = "test";
+const ASSET_TABLE: [&str; 4] = [
+    "nria",
+    "transfer/channel-0/utia",
+    "transfer/channel-1/uosmo",
+    "ugly",
+];
+const DUMP_CHANNELS: [&str; 3] = ["channel-0", "channel-1", "channel-2"];
+const FEE_KINDS: [&str; 18] = [
+    "transfer",
+    "rollup",
+    "ics20w",
+    "initbridge",
+    "lock",
+    "unlock",
+    "btransfer",
+    "bsudo",
+    "ibcrelay",
+    "valupdate",
+    "feeasset",
+    "feechange",
+    "relayer",
+    "sudochange",
+    "ibcsudo",
+    "recover",
+    "pairs",
+    "markets",
+];
+
+type PResult<T> = Result<T, String>;
+
+// ---------------------------------------------------------------------------------------------
+// Naming of entities
+// ---------------------------------------------------------------------------------------------
+
+struct Names {
+    keys: Vec<SigningKey>,
+    addresses: Vec<Address>,
+    by_address: HashMap<[u8; ADDRESS_LEN], usize>,
+    by_verification_key: HashMap<[u8; 32], usize>,
+    assets: Vec<Denom>,
+    by_asset: HashMap<IbcPrefixed, usize>,
+}
+
+impl Names {
+    fn new() -> Self {
+        let keys: Vec<SigningKey> = (0..ACCOUNT_COUNT)
+            .map(|k| SigningKey::from([0x40 + k; 32]))
+            .collect();
+        let addresses: Vec<Address> = keys
+            .iter()
+            .map(|key| astria_address(&key.address_bytes()))
+            .collect();
+        let by_address = keys
+            .iter()
+            .enumerate()
+            .map(|(index, key)| (key.address_bytes(), index))
+            .collect();
+        let by_verification_key = keys
+            .iter()
+            .enumerate()
+            .map(|(index, key)| (key.verification_key().to_bytes(), index))
+            .collect();
+        let assets: Vec<Denom> = ASSET_TABLE
+            .iter()
+            .map(|denom| denom.parse::<Denom>().unwrap())
+            .collect();
+        let by_asset = assets
+            .iter()
+            .enumerate()
+            .map(|(index, denom)| (denom.to_ibc_prefixed(), index))
+            .collect();
+        Self {
+            keys,
+            addresses,
+            by_address,
+            by_verification_key,
+            assets,
+            by_asset,
+        }
+    }
+
+    fn account_index(&self, token: &str) -> PResult<usize> {
+        let index: usize = token
+            .strip_prefix('a')
+            .and_then(|digits| digits.parse().ok())
+            .ok_or_else(|| format!("bad account `{token}`"))?;
+        if index >= self.keys.len() {
+            return Err(format!("account `{token}` out of range"));
+        }
+        Ok(index)
+    }
+
+    /// `a<k>` or 40 hex chars.
+    fn address(&self, token: &str) -> PResult<Address> {
+        if token.len() == ADDRESS_LEN * 2 && token.chars().all(|c| c.is_ascii_hexdigit()) {
+            let bytes = hex::decode(token).map_err(|e| e.to_string())?;
+            return Ok(astria_address(&bytes));
+        }
+        Ok(self.addresses[self.account_index(token)?])
+    }
+
+    fn opt_address(&self, token: &str) -> PResult<Option<Address>> {
+        if token == "-" {
+            Ok(None)
+        } else {
+            self.address(token).map(Some)
+        }
+    }
+
+    fn asset(&self, token: &str) -> PResult<Denom> {
+        if let Some(index) = token
+            .strip_prefix('s')
+            .and_then(|digits| digits.parse::<usize>().ok())
+        {
+            if index < self.assets.len() {
+                return Ok(self.assets[index].clone());
+            }
+        }
+        token
+            .parse::<Denom>()
+            .map_err(|e| format!("bad asset `{token}`: {e}"))
+    }
+
+    fn rollup(&self, token: &str) -> PResult<RollupId> {
+        let index: u8 = token
+            .strip_prefix('r')
+            .and_then(|digits| digits.parse().ok())
+            .ok_or_else(|| format!("bad rollup id `{token}`"))?;
+        Ok(RollupId::new([index; 32]))
+    }
+
+    fn show_address(&self, bytes: &[u8; ADDRESS_LEN]) -> String {
+        match self.by_address.get(bytes) {
+            Some(index) => format!("a{index}"),
+            None => hex::encode(bytes),
+        }
+    }
+
+    fn show_verification_key(&self, bytes: &[u8]) -> String {
+        match <[u8; 32]>::try_from(bytes)
+            .ok()
+            .and_then(|bytes| self.by_verification_key.get(&bytes))
+        {
+            Some(index) => format!("a{index}"),
+            None => hex::encode(bytes),
+        }
+    }
+
+    fn show_asset(&self, asset: &IbcPrefixed) -> String {
+        match self.by_asset.get(asset) {
+            Some(index) => format!("s{index}"),
+            None => hex::encode(asset.as_bytes()),
+        }
+    }
+
+    fn show_rollup(&self, rollup_id: &RollupId) -> String {
+        let bytes = rollup_id.as_bytes();
+        if bytes.iter().all(|b| *b == bytes[0]) {
+            format!("r{}", bytes[0])
+        } else {
+            hex::encode(bytes)
+        }
+    }
+}
+
+/// Sort key placing table names (`a3`, `s1`, `r7`) in numeric order before hex strings.
+fn name_sort_key(name: &str) -> (u8, u64, String) {
+    if name.len() >= 2 && name.len() <= 4 {
+        if let Ok(index) = name[1..].parse::<u64>() {
+            if matches!(name.as_bytes()[0], b'a' | b's' | b'r') {
+                return (0, index, String::new());
+            }
+        }
+    }
+    (1, 0, name.to_string())
+}
+
+// ---------------------------------------------------------------------------------------------
+// Error classes
+// ---------------------------------------------------------------------------------------------
+
+/// Joins the `Display` output of an error and all its sources.
+fn error_chain<E: std::error::Error + ?Sized>(error: &E) -> String {
+    let mut text = error.to_string();
+    let mut current = error.source();
+    while let Some(source) = current {
+        text.push_str(": ");
+        text.push_str(&source.to_string());
+        current = source.source();
+    }
+    text
+}
+
+fn report_chain(report: &astria_eyre::eyre::Report) -> String {
+    format!("{report:#}")
+}
+
+/// The single place where error text is mapped to a short stable word.  The first matching rule
+/// wins.
+fn error_class(text: &str) -> &'static str {
+    let text = text.to_lowercase();
+    let has = |needle: &str| text.contains(needle);
+    if has("nonce") {
+        "nonce"
+    } else if has("unauthorized")
+        || has("not authorized")
+        || has("not sudo")
+        || has("not the authorized")
+        || has("signer is not")
+    {
+        "auth"
+    } else if has("overflow") {
+        "overflow"
+    } else if has("is disabled") || has("currently disabled") {
+        "disabled"
+    } else if has("already") {
+        "exists"
+    } else if has("not currently") || has("non-existing") || has("does not exist") {
+        "missing"
+    } else if has("fee asset") || has("not allowed") {
+        "feeasset"
+    } else if has("insufficient") || has("balance") {
+        "funds"
+    } else if has("prefix") {
+        "prefix"
+    } else if has("bridge") {
+        "bridge"
+    } else if has("failed decoding") || has("failed converting") || has("too large") {
+        "decode"
+    } else if has("chain id") {
+        "chainid"
+    } else {
+        "other"
+    }
+}
+
+fn debug_enabled() -> bool {
+    std::env::var_os("VERIF_DEBUG").is_some()
+}
+
+fn classify(context: &str, text: &str) -> &'static str {
+    if debug_enabled() {
+        eprintln!("[verif] {context}: {text}");
+    }
+    error_class(text)
+}
+
+// ---------------------------------------------------------------------------------------------
+// Script parsing helpers
+// ---------------------------------------------------------------------------------------------
+
+struct KeyValues<'a> {
+    name: &'a str,
+    pairs: Vec<(&'a str, &'a str)>,
+}
+
+impl<'a> KeyValues<'a> {
+    fn parse(name: &'a str, tokens: &[&'a str]) -> PResult<Self> {
+        let mut pairs = Vec::new();
+        for token in tokens {
+            let (key, value) = token
+                .split_once('=')
+                .ok_or_else(|| format!("expected key=value, got `{token}`"))?;
+            pairs.push((key, value));
+        }
+        Ok(Self {
+            name,
+            pairs,
+        })
+    }
+
+    fn opt(&self, key: &str) -> Option<&'a str> {
+        self.pairs
+            .iter()
+            .find(|(candidate, _)| *candidate == key)
+            .map(|(_, value)| *value)
+    }
+
+    /// Returns the value unless absent or `-`.
+    fn opt_some(&self, key: &str) -> Option<&'a str> {
+        self.opt(key).filter(|value| *value != "-")
+    }
+
+    fn req(&self, key: &str) -> PResult<&'a str> {
+        self.opt(key)
+            .ok_or_else(|| format!("`{}` requires `{key}=`", self.name))
+    }
+
+    fn num<T: std::str::FromStr>(&self, key: &str) -> PResult<T> {
+        let value = self.req(key)?;
+        value
+            .parse()
+            .map_err(|_| format!("bad number `{value}` for `{key}`"))
+    }
+}
+
+fn parse_num<T: std::str::FromStr>(token: &str) -> PResult<T> {
+    token
+        .parse()
+        .map_err(|_| format!("bad number `{token}`"))
+}
+
+/// Parses `a0:10,a1:5` style lists.
+fn parse_account_amounts<T: std::str::FromStr>(
+    names: &Names,
+    value: &str,
+) -> PResult<Vec<(usize, T)>> {
+    let mut entries = Vec::new();
+    if value.is_empty() || value == "-" {
+        return Ok(entries);
+    }
+    for entry in value.split(',') {
+        let (account, amount) = entry
+            .split_once(':')
+            .ok_or_else(|| format!("expected acct:amount, got `{entry}`"))?;
+        entries.push((names.account_index(account)?, parse_num(amount)?));
+    }
+    Ok(entries)
+}
+
+fn fee_change(kind: &str, base: u128, multiplier: u128) -> PResult<FeeChange> {
+    Ok(match kind {
+        "transfer" => FeeChange::Transfer(FeeComponents::new(base, multiplier)),
+        "rollup" => FeeChange::RollupDataSubmission(FeeComponents::new(base, multiplier)),
+        "ics20w" => FeeChange::Ics20Withdrawal(FeeComponents::new(base, multiplier)),
+        "initbridge" => FeeChange::InitBridgeAccount(FeeComponents::new(base, multiplier)),
+        "lock" => FeeChange::BridgeLock(FeeComponents::new(base, multiplier)),
+        "unlock" => FeeChange::BridgeUnlock(FeeComponents::new(base, multiplier)),
+        "btransfer" => FeeChange::BridgeTransfer(FeeComponents::new(base, multiplier)),
+        "bsudo" => FeeChange::BridgeSudoChange(FeeComponents::new(base, multiplier)),
+        "ibcrelay" => FeeChange::IbcRelay(FeeComponents::new(base, multiplier)),
+        "valupdate" => FeeChange::ValidatorUpdate(FeeComponents::new(base, multiplier)),
+        "feeasset" => FeeChange::FeeAssetChange(FeeComponents::new(base, multiplier)),
+        "feechange" => FeeChange::FeeChange(FeeComponents::new(base, multiplier)),
+        "relayer" => FeeChange::IbcRelayerChange(FeeComponents::new(base, multiplier)),
+        "sudochange" => FeeChange::SudoAddressChange(FeeComponents::new(base, multiplier)),
+        "ibcsudo" => FeeChange::IbcSudoChange(FeeComponents::new(base, multiplier)),
+        "recover" => FeeChange::RecoverIbcClient(FeeComponents::new(base, multiplier)),
+        "pairs" => FeeChange::CurrencyPairsChange(FeeComponents::new(base, multiplier)),
+        "markets" => FeeChange::MarketsChange(FeeComponents::new(base, multiplier)),
+        other => return Err(format!("unknown fee kind `{other}`")),
+    })
+}
+
+fn parse_action(names: &Names, tokens: &[&str], evids: &mut BTreeSet<String>) -> PResult<Action> {
+    let (name, rest) = tokens
+        .split_first()
+        .ok_or_else(|| "empty action".to_string())?;
+    let kv = KeyValues::parse(name, rest)?;
+    let action: Action = match *name {
+        "transfer" => Transfer {
+            to: names.address(kv.req("to")?)?,
+            amount: kv.num("amt")?,
+            asset: names.asset(kv.req("asset")?)?,
+            fee_asset: names.asset(kv.req("fee")?)?,
+        }
+        .into(),
+        "lock" => BridgeLock {
+            to: names.address(kv.req("to")?)?,
+            amount: kv.num("amt")?,
+            asset: names.asset(kv.req("asset")?)?,
+            fee_asset: names.asset(kv.req("fee")?)?,
+            destination_chain_address: kv.req("dest")?.to_string(),
+        }
+        .into(),
+        "unlock" => {
+            let event_id = kv.req("evid")?.to_string();
+            evids.insert(event_id.clone());
+            BridgeUnlock {
+                to: names.address(kv.req("to")?)?,
+                amount: kv.num("amt")?,
+                fee_asset: names.asset(kv.req("fee")?)?,
+                bridge_address: names.address(kv.req("bridge")?)?,
+                memo: kv.opt_some("memo").unwrap_or_default().to_string(),
+                rollup_block_number: kv.num("blk")?,
+                rollup_withdrawal_event_id: event_id,
+            }
+            .into()
+        }
+        "btransfer" => {
+            let event_id = kv.req("evid")?.to_string();
+            evids.insert(event_id.clone());
+            BridgeTransfer {
+                to: names.address(kv.req("to")?)?,
+                amount: kv.num("amt")?,
+                fee_asset: names.asset(kv.req("fee")?)?,
+                destination_chain_address: kv.req("dest")?.to_string(),
+                bridge_address: names.address(kv.req("bridge")?)?,
+                rollup_block_number: kv.num("blk")?,
+                rollup_withdrawal_event_id: event_id,
+            }
+            .into()
+        }
+        "initbridge" => InitBridgeAccount {
+            rollup_id: names.rollup(kv.req("rollup")?)?,
+            asset: names.asset(kv.req("asset")?)?,
+            fee_asset: names.asset(kv.req("fee")?)?,
+            sudo_address: names.opt_address(kv.opt("sudo").unwrap_or("-"))?,
+            withdrawer_address: names.opt_address(kv.opt("withdrawer").unwrap_or("-"))?,
+        }
+        .into(),
+        "bsudo" => BridgeSudoChange {
+            bridge_address: names.address(kv.req("bridge")?)?,
+            new_sudo_address: names.opt_address(kv.opt("newsudo").unwrap_or("-"))?,
+            new_withdrawer_address: names.opt_address(kv.opt("newwithdrawer").unwrap_or("-"))?,
+            fee_asset: names.asset(kv.req("fee")?)?,
+            disable_deposits: match kv.opt("disable").unwrap_or("-") {
+                "1" => true,
+                "0" | "-" => false,
+                other => return Err(format!("bad disable flag `{other}`")),
+            },
+        }
+        .into(),
+        "ics20w" => {
+            let bridge_address = names.opt_address(kv.opt("bridge").unwrap_or("-"))?;
+            let plain_memo = kv.opt_some("memo").unwrap_or_default().to_string();
+            let memo = if let Some(event_id) = kv.opt_some("evid") {
+                evids.insert(event_id.to_string());
+                let rollup_block_number = match kv.opt_some("blk") {
+                    Some(value) => parse_num(value)?,
+                    None => 0,
+                };
+                serde_json::to_string(&Ics20WithdrawalFromRollup {
+                    rollup_block_number,
+                    rollup_withdrawal_event_id: event_id.to_string(),
+                    rollup_return_address: kv.opt_some("rret").unwrap_or("rollupret").to_string(),
+                    memo: plain_memo,
+                })
+                .map_err(|e| e.to_string())?
+            } else {
+                plain_memo
+            };
+            Ics20Withdrawal {
+                amount: kv.num("amt")?,
+                denom: names.asset(kv.req("denom")?)?,
+                destination_chain_address: kv.req("dest")?.to_string(),
+                return_address: names.address(kv.req("ret")?)?,
+                timeout_height: ibc_types::core::client::Height::new(1, 1_000_000)
+                    .map_err(|e| e.to_string())?,
+                timeout_time: u64::MAX / 2,
+                source_channel: kv
+                    .req("chan")?
+                    .parse()
+                    .map_err(|_| "bad channel id".to_string())?,
+                fee_asset: names.asset(kv.req("fee")?)?,
+                memo,
+                bridge_address,
+                use_compat_address: false,
+            }
+            .into()
+        }
+        "rollup" => {
+            let len: usize = kv.num("len")?;
+            RollupDataSubmission {
+                rollup_id: names.rollup(kv.req("id")?)?,
+                data: Bytes::from((0..len).map(|i| (i % 251) as u8).collect::<Vec<u8>>()),
+                fee_asset: names.asset(kv.req("fee")?)?,
+            }
+            .into()
+        }
+        "feechange" => fee_change(kv.req("kind")?, kv.num("base")?, kv.num("mult")?)?.into(),
+        "feeasset" => {
+            if let Some(asset) = kv.opt("add") {
+                FeeAssetChange::Addition(names.asset(asset)?).into()
+            } else {
+                FeeAssetChange::Removal(names.asset(kv.req("remove")?)?).into()
+            }
+        }
+        "sudochange" => SudoAddressChange {
+            new_address: names.address(kv.req("to")?)?,
+        }
+        .into(),
+        "ibcsudo" => IbcSudoChange {
+            new_address: names.address(kv.req("to")?)?,
+        }
+        .into(),
+        "relayer" => {
+            if let Some(account) = kv.opt("add") {
+                IbcRelayerChange::Addition(names.address(account)?).into()
+            } else {
+                IbcRelayerChange::Removal(names.address(kv.req("remove")?)?).into()
+            }
+        }
+        "valupdate" => {
+            let key_token = kv.req("key")?;
+            let verification_key = names.keys[names.account_index(key_token)?].verification_key();
+            ValidatorUpdate {
+                power: kv.num("power")?,
+                verification_key,
+                name: kv
+                    .opt_some("name")
+                    .unwrap_or_default()
+                    .parse()
+                    .map_err(|_| "bad validator name".to_string())?,
+            }
+            .into()
+        }
+        "pairs" => {
+            let (list, addition) = if let Some(list) = kv.opt("add") {
+                (list, true)
+            } else {
+                (kv.req("remove")?, false)
+            };
+            let mut pairs = indexmap::IndexSet::new();
+            for pair in list.split(',').filter(|pair| !pair.is_empty()) {
+                pairs.insert(
+                    pair.parse()
+                        .map_err(|_| format!("bad currency pair `{pair}`"))?,
+                );
+            }
+            if addition {
+                CurrencyPairsChange::Addition(pairs).into()
+            } else {
+                CurrencyPairsChange::Removal(pairs).into()
+            }
+        }
+        other => return Err(format!("unknown action `{other}`")),
+    };
+    Ok(action)
+}
+
+// ---------------------------------------------------------------------------------------------
+// Chain state held by the harness
+// ---------------------------------------------------------------------------------------------
+
+struct ManualBlock {
+    height: u64,
+    executed: Vec<ExecutedTransaction>,
+}
+
+struct Chain {
+    app: App,
+    storage: Storage,
+    manual: Option<ManualBlock>,
+}
+
+fn block_time(height: u64) -> Time {
+    Time::from_unix_timestamp(BASE_TIME_SECS, 0)
+        .unwrap()
+        .checked_add(Duration::from_secs(height))
+        .unwrap()
+}
+
+fn block_hash(height: u64) -> Hash {
+    Hash::Sha256(Sha256::digest(height.to_le_bytes()).into())
+}
+
+fn hex16(bytes: &[u8]) -> String {
+    hex::encode(bytes)[..16].to_string()
+}
+
+impl Chain {
+    fn proposer(names: &Names) -> tendermint::account::Id {
+        names.keys[0].address_bytes().to_vec().try_into().unwrap()
+    }
+
+    async fn stored_height(&self) -> u64 {
+        self.app
+            .state()
+            .get_block_height()
+            .await
+            .unwrap_or_default()
+    }
+
+    /// The CometBFT `txs` field of a block at `height` containing exactly `txs`, in the form the
+    /// app expects at that height (legacy commitments before Aspen, `DataItem`s afterwards, with
+    /// upgrade change hashes at an activation height and extended commit info when enabled).
+    ///
+    /// The rollup data commitments are generated the way an honest proposer would: over
+    /// `committed` (the txs which will actually be executed successfully) and `deposits` (the
+    /// deposits those txs will emit).
+    async fn block_data(
+        &mut self,
+        height: u64,
+        txs: &[Arc<CheckedTransaction>],
+        committed: &[Arc<CheckedTransaction>],
+        deposits: HashMap<RollupId, Vec<Deposit>>,
+    ) -> Vec<Bytes> {
+        let tm_height = Height::try_from(height).unwrap();
+        let tx_bytes = txs.iter().map(|tx| tx.encoded_bytes().clone());
+        if !self.app.uses_data_item_enum(tm_height) {
+            return generate_rollup_datas_commitment::<false>(committed, deposits)
+                .into_iter()
+                .chain(tx_bytes)
+                .collect();
+        }
+        let upgrade_change_hashes = self
+            .app
+            .upgrades_handler
+            .upgrades()
+            .upgrade_activating_at_height(height)
+            .map(|upgrade| {
+                DataItem::UpgradeChangeHashes(
+                    upgrade.changes().map(Change::calculate_hash).collect(),
+                )
+                .encode()
+            });
+        let with_extended_commit_info = self
+            .app
+            .vote_extensions_enabled(tm_height)
+            .await
+            .unwrap_or(false);
+        if upgrade_change_hashes.is_none()
+            && with_extended_commit_info
+            && height > 1
+            && txs.len() == committed.len()
+        {
+            return transactions_with_extended_commit_info_and_commitments(
+                tm_height,
+                txs,
+                Some(deposits),
+            );
+        }
+        generate_rollup_datas_commitment::<true>(committed, deposits)
+            .into_iter()
+            .chain(upgrade_change_hashes)
+            .chain(with_extended_commit_info.then(|| dummy_extended_commit_info().encode()))
+            .chain(tx_bytes)
+            .collect()
+    }
+
+    async fn expanded_block_data(
+        &mut self,
+        height: u64,
+        data: &[Bytes],
+    ) -> Result<ExpandedBlockData, String> {
+        let tm_height = Height::try_from(height).unwrap();
+        if self.app.uses_data_item_enum(tm_height) {
+            let with_extended_commit_info = self
+                .app
+                .vote_extensions_enabled(tm_height)
+                .await
+                .map_err(|e| report_chain(&e))?;
+            ExpandedBlockData::new_from_typed_data(data, with_extended_commit_info)
+        } else {
+            ExpandedBlockData::new_from_untyped_data(data)
+        }
+        .map_err(|e| error_chain(&e))
+    }
+
+    fn finalize_request(
+        names: &Names,
+        height: u64,
+        txs: Vec<Bytes>,
+    ) -> abci::request::FinalizeBlock {
+        abci::request::FinalizeBlock {
+            hash: block_hash(height),
+            height: Height::try_from(height).unwrap(),
+            time: block_time(height),
+            next_validators_hash: Hash::default(),
+            proposer_address: Self::proposer(names),
+            txs,
+            decided_last_commit: CommitInfo {
+                votes: vec![],
+                round: Round::default(),
+            },
+            misbehavior: vec![],
+        }
+    }
+
+    /// Executes `txs` on the working state exactly like the loop in `finalize_block` does (after
+    /// `pre_execute_transactions`), records the error text of every failing tx and the deposits
+    /// emitted by the block, and then discards the working state again.
+    async fn dry_run(
+        &mut self,
+        names: &Names,
+        height: u64,
+        txs: &[Arc<CheckedTransaction>],
+    ) -> (Vec<Option<String>>, HashMap<RollupId, Vec<Deposit>>) {
+        if txs.is_empty() {
+            return (vec![], HashMap::new());
+        }
+        self.reset_round();
+        let block_data = BlockData {
+            misbehavior: vec![],
+            height: Height::try_from(height).unwrap(),
+            time: block_time(height),
+            next_validators_hash: Hash::default(),
+            proposer_address: Self::proposer(names),
+        };
+        let mut errors = Vec::with_capacity(txs.len());
+        if self.app.pre_execute_transactions(block_data).await.is_ok() {
+            for tx in txs {
+                errors.push(
+                    self.app
+                        .execute_transaction(tx.clone())
+                        .await
+                        .err()
+                        .map(|error| error_chain(&error)),
+                );
+            }
+        }
+        let deposits = self.app.state().get_cached_block_deposits();
+        self.reset_round();
+        (errors, deposits)
+    }
+
+    /// Resets the app's working state and execution state the way a new round would.
+    fn reset_round(&mut self) {
+        self.app.update_state_for_new_round(&self.storage);
+        self.app.write_batch = None;
+        self.manual = None;
+    }
+
+    /// Applies `delta`: inside a manual block it is merged into the working state, otherwise it
+    /// is committed.
+    async fn apply_delta(&mut self, delta: StateDelta<Arc<StateDelta<Snapshot>>>) {
+        if self.manual.is_some() {
+            let _ = self.app.apply(delta);
+        } else {
+            self.app
+                .apply_and_commit(delta, self.storage.clone())
+                .await;
+        }
+    }
+}
+
+fn show_validator_updates(names: &Names, updates: &[tendermint::validator::Update]) -> String {
+    if updates.is_empty() {
+        return "-".to_string();
+    }
+    updates
+        .iter()
+        .map(|update| {
+            format!(
+                "{}:{}",
+                names.show_verification_key(&update.pub_key.to_bytes()),
+                update.power.value()
+            )
+        })
+        .collect::<Vec<_>>()
+        .join(",")
+}
+
+/// sha256 over all length-prefixed (key, value) pairs of the verifiable and non-verifiable stores
+/// of the given state (which includes uncommitted writes).
+async fn raw_hashes<S: StateRead>(state: &S) -> ([u8; 32], [u8; 32]) {
+    let mut verifiable: Vec<(Vec<u8>, Vec<u8>)> = Vec::new();
+    let mut stream = std::pin::pin!(state.prefix_raw(""));
+    while let Some(entry) = stream.next().await {
+        let (key, value) = entry.expect("prefix_raw should not fail");
+        verifiable.push((key.into_bytes(), value));
+    }
+    let mut nonverifiable: Vec<(Vec<u8>, Vec<u8>)> = Vec::new();
+    let mut stream = std::pin::pin!(state.nonverifiable_prefix_raw(b""));
+    while let Some(entry) = stream.next().await {
+        let (key, value) = entry.expect("nonverifiable_prefix_raw should not fail");
+        nonverifiable.push((key, value));
+    }
+    let digest = |mut pairs: Vec<(Vec<u8>, Vec<u8>)>| -> [u8; 32] {
+        pairs.sort();
+        let mut hasher = Sha256::new();
+        for (key, value) in pairs {
+            hasher.update((key.len() as u64).to_le_bytes());
+            hasher.update(&key);
+            hasher.update((value.len() as u64).to_le_bytes());
+            hasher.update(&value);
+        }
+        hasher.finalize().into()
+    };
+    (digest(verifiable), digest(nonverifiable))
+}
+
+/// Everything compared by `exec ... unchanged=`: both raw hashes plus the ephemeral block fees and
+/// cached deposit counts.
+async fn working_state_fingerprint(app: &App) -> String {
+    let (verifiable, nonverifiable) = raw_hashes(app.state()).await;
+    let fees: BTreeMap<String, u128> = app
+        .state()
+        .get_block_fees()
+        .into_iter()
+        .map(|(asset, amount)| (hex::encode(asset.as_bytes()), amount))
+        .collect();
+    let deposits: BTreeMap<String, usize> = app
+        .state()
+        .get_cached_block_deposits()
+        .into_iter()
+        .map(|(rollup_id, deposits)| (hex::encode(rollup_id.as_bytes()), deposits.len()))
+        .collect();
+    format!(
+        "{} {} {fees:?} {deposits:?}",
+        hex::encode(verifiable),
+        hex::encode(nonverifiable)
+    )
+}
+
+macro_rules! fee_line {
+    ($state:expr, $out:expr, $kind:literal, $ty:ty) => {
+        match $state.get_fees::<$ty>().await {
+            Ok(Some(fees)) => {
+                let _ = writeln!($out, "fee {} {} {}", $kind, fees.base(), fees.multiplier());
+            }
+            Ok(None) => {
+                let _ = writeln!($out, "fee {} none", $kind);
+            }
+            Err(_) => {
+                let _ = writeln!($out, "fee {} err", $kind);
+            }
+        }
+    };
+}
+
+// ---------------------------------------------------------------------------------------------
+// The harness
+// ---------------------------------------------------------------------------------------------
+
+struct Harness {
+    names: Names,
+    out: String,
+    chain: Option<Chain>,
+    txs: HashMap<String, Bytes>,
+    tx_names: HashMap<[u8; 32], String>,
+    evids: BTreeSet<String>,
+}
+
+impl Harness {
+    fn new() -> Self {
+        Self {
+            names: Names::new(),
+            out: String::new(),
+            chain: None,
+            txs: HashMap::new(),
+            tx_names: HashMap::new(),
+            evids: BTreeSet::new(),
+        }
+    }
+
+    fn emit(&mut self, line: impl AsRef<str>) {
+        self.out.push_str(line.as_ref());
+        self.out.push('\n');
+    }
+
+    async fn run_line(&mut self, line: &str) {
+        let tokens: Vec<&str> = line.split_whitespace().collect();
+        let Some((&op, args)) = tokens.split_first() else {
+            return;
+        };
+        if op.starts_with('#') {
+            return;
+        }
+        let mark = self.out.len();
+        let result = AssertUnwindSafe(self.run_op(op, args, line))
+            .catch_unwind()
+            .await;
+        match result {
+            Ok(Ok(())) => {}
+            Ok(Err(message)) => {
+                if debug_enabled() {
+                    eprintln!("[verif] parse error in `{line}`: {message}");
+                }
+                self.out.truncate(mark);
+                let subject = match op {
+                    "tx" | "exec" => args.first().map(|id| format!(" {id}")).unwrap_or_default(),
+                    _ => String::new(),
+                };
+                self.emit(format!("{op}{subject} parseerr"));
+            }
+            Err(_) => {
+                self.out.truncate(mark);
+                let subject = match op {
+                    "tx" | "exec" => args.first().map(|id| format!(" {id}")).unwrap_or_default(),
+                    _ => String::new(),
+                };
+                self.emit(format!("{op}{subject} panic"));
+                // A panic may have left the app half-way through a block; best effort reset so
+                // that later ops have a chance to work.
+                if let Some(chain) = self.chain.as_mut() {
+                    let _ = std::panic::catch_unwind(AssertUnwindSafe(|| chain.reset_round()));
+                }
+            }
+        }
+    }
+
+    async fn run_op(&mut self, op: &str, args: &[&str], line: &str) -> PResult<()> {
+        match op {
+            "case" => {
+                // Drops the chain only; tx ids stay defined and may be reused in later cases.
+                self.chain = None;
+                self.emit(line.trim());
+                Ok(())
+            }
+            "genesis" => self.op_genesis(args).await,
+            "advance" => self.op_advance(args).await,
+            "mint" => self.op_mint(args).await,
+            "allowfee" => self.op_allowfee(args).await,
+            "escrow" => self.op_escrow(args).await,
+            "ibcchan" => self.op_ibcchan(args).await,
+            "tx" => self.op_tx(args),
+            "block" => self.op_block(args).await,
+            "begin" => self.op_begin().await,
+            "exec" => self.op_exec(args).await,
+            "end" => self.op_end().await,
+            "dump" => self.op_dump().await,
+            other => Err(format!("unknown op `{other}`")),
+        }
+    }
+
+    fn chain(&mut self) -> PResult<&mut Chain> {
+        self.chain
+            .as_mut()
+            .ok_or_else(|| "no chain (missing `genesis`)".to_string())
+    }
+
+    async fn op_genesis(&mut self, args: &[&str]) -> PResult<()> {
+        let kv = KeyValues::parse("genesis", args)?;
+        let names = &self.names;
+        let accounts: Vec<(usize, u128)> = match kv.opt("acct") {
+            Some(value) => parse_account_amounts(names, value)?,
+            None => (0..6).map(|index| (index, TEN_QUINTILLION)).collect(),
+        };
+        let validators: Vec<(usize, u32)> = match kv.opt("vals") {
+            Some(value) => parse_account_amounts(names, value)?,
+            None => (0..3).map(|index| (index, 10)).collect(),
+        };
+        let sudo = names.addresses[names.account_index(kv.opt("sudo").unwrap_or("a0"))?];
+        let ibc_sudo = names.addresses[names.account_index(kv.opt("ibcsudo").unwrap_or("a1"))?];
+        let relayers: Option<Vec<usize>> = match kv.opt("relayers") {
+            Some(value) if value.is_empty() || value == "-" => Some(vec![]),
+            Some(value) => Some(
+                value
+                    .split(',')
+                    .map(|token| names.account_index(token))
+                    .collect::<PResult<_>>()?,
+            ),
+            None => None,
+        };
+        let no_fees = match kv.opt("fees").unwrap_or("default") {
+            "default" => false,
+            "none" => true,
+            other => return Err(format!("bad fees `{other}`")),
+        };
+        let activation = |key: &str, default: u64| -> PResult<Option<u64>> {
+            let height = match kv.opt(key) {
+                Some(value) => parse_num::<u64>(value)?,
+                None => default,
+            };
+            Ok((height != 0).then_some(height))
+        };
+        let upgrades = UpgradesBuilder::new()
+            .set_aspen(activation("aspen", 1)?)
+            .set_blackburn(activation("blackburn", 3)?)
+            .build();
+
+        self.chain = None;
+        let mut fixture = Fixture::uninitialized(Some(upgrades)).await;
+        let mut initializer = fixture
+            .chain_initializer()
+            .with_genesis_accounts(
+                accounts
+                    .iter()
+                    .map(|(index, amount)| (names.addresses[*index], *amount)),
+            )
+            .with_authority_sudo_address(sudo)
+            .with_ibc_sudo_address(ibc_sudo)
+            .with_genesis_validators(
+                validators
+                    .iter()
+                    .map(|(index, power)| (names.keys[*index].verification_key(), *power)),
+            );
+        if no_fees {
+            initializer = initializer.with_no_fees();
+        }
+        initializer.init().await;
+        let (app, storage) = fixture.destructure();
+        let mut chain = Chain {
+            app,
+            storage,
+            manual: None,
+        };
+        if let Some(relayers) = relayers {
+            // `ChainInitializer` cannot configure relayers: replace the default one directly.
+            let mut delta = chain.app.new_state_delta();
+            delta.delete_ibc_relayer_address(&*IBC_SUDO_ADDRESS);
+            for index in relayers {
+                delta
+                    .put_ibc_relayer_address(&names.addresses[index])
+                    .map_err(|e| report_chain(&e))?;
+            }
+            chain.apply_delta(delta).await;
+        }
+        self.chain = Some(chain);
+        self.emit("genesis ok");
+        Ok(())
+    }
+
+    async fn op_advance(&mut self, args: &[&str]) -> PResult<()> {
+        let count: u64 = parse_num(args.first().copied().unwrap_or("1"))?;
+        let names = &self.names;
+        let chain = self
+            .chain
+            .as_mut()
+            .ok_or_else(|| "no chain (missing `genesis`)".to_string())?;
+        chain.reset_round();
+        for _ in 0..count {
+            let height = chain.stored_height().await + 1;
+            let txs = chain.block_data(height, &[], &[], HashMap::new()).await;
+            let request = Chain::finalize_request(names, height, txs);
+            if let Err(error) = chain
+                .app
+                .finalize_block(request, chain.storage.clone())
+                .await
+            {
+                let class = classify("advance", &report_chain(&error));
+                chain.reset_round();
+                self.out
+                    .push_str(&format!("advance err={class} height={height}\n"));
+                return Ok(());
+            }
+            if let Err(error) = chain.app.commit(chain.storage.clone()).await {
+                let _ = classify("advance commit", &report_chain(&error));
+                self.out
+                    .push_str(&format!("advance err=commit height={height}\n"));
+                return Ok(());
+            }
+        }
+        let height = chain.stored_height().await;
+        self.emit(format!("advance height={height}"));
+        Ok(())
+    }
+
+    async fn op_mint(&mut self, args: &[&str]) -> PResult<()> {
+        let [account, asset, amount] = args else {
+            return Err("usage: mint <acct> <asset> <amount>".to_string());
+        };
+        let address = self.names.address(account)?;
+        let asset = self.names.asset(asset)?;
+        let amount: u128 = parse_num(amount)?;
+        let chain = self.chain()?;
+        let mut delta = chain.app.new_state_delta();
+        delta
+            .put_account_balance(&address, &asset, amount)
+            .map_err(|e| report_chain(&e))?;
+        if let Denom::TracePrefixed(trace_prefixed) = &asset {
+            delta
+                .put_ibc_asset(trace_prefixed.clone())
+                .map_err(|e| report_chain(&e))?;
+        }
+        chain.apply_delta(delta).await;
+        self.emit("mint ok");
+        Ok(())
+    }
+
+    async fn op_allowfee(&mut self, args: &[&str]) -> PResult<()> {
+        let [asset] = args else {
+            return Err("usage: allowfee <asset>".to_string());
+        };
+        let asset = self.names.asset(asset)?;
+        let chain = self.chain()?;
+        let mut delta = chain.app.new_state_delta();
+        delta
+            .put_allowed_fee_asset(&asset)
+            .map_err(|e| report_chain(&e))?;
+        if let Denom::TracePrefixed(trace_prefixed) = &asset {
+            delta
+                .put_ibc_asset(trace_prefixed.clone())
+                .map_err(|e| report_chain(&e))?;
+        }
+        chain.apply_delta(delta).await;
+        self.emit("allowfee ok");
+        Ok(())
+    }
+
+    async fn op_escrow(&mut self, args: &[&str]) -> PResult<()> {
+        let [channel, asset, amount] = args else {
+            return Err("usage: escrow <channel> <asset> <amount>".to_string());
+        };
+        let channel: ibc_types::core::channel::ChannelId = channel
+            .parse()
+            .map_err(|_| format!("bad channel `{channel}`"))?;
+        let asset = self.names.asset(asset)?;
+        let amount: u128 = parse_num(amount)?;
+        let chain = self.chain()?;
+        let mut delta = chain.app.new_state_delta();
+        delta
+            .put_ibc_channel_balance(&channel, &asset, amount)
+            .map_err(|e| report_chain(&e))?;
+        if let Denom::TracePrefixed(trace_prefixed) = &asset {
+            delta
+                .put_ibc_asset(trace_prefixed.clone())
+                .map_err(|e| report_chain(&e))?;
+        }
+        chain.apply_delta(delta).await;
+        self.emit("escrow ok");
+        Ok(())
+    }
+
+    /// Extension: `ibcchan <channel-id>` writes an open transfer channel (with its own active
+    /// tendermint client and open connection) directly into state so that `ics20w` can execute.
+    async fn op_ibcchan(&mut self, args: &[&str]) -> PResult<()> {
+        use ibc_types::{
+            core::{
+                channel::{
+                    channel::{
+                        Counterparty as ChannelCounterparty,
+                        Order,
+                        State as ChannelState,
+                    },
+                    ChannelEnd,
+                    ChannelId,
+                    PortId,
+                    Version as ChannelVersion,
+                },
+                client::{
+                    ClientId,
+                    ClientType,
+                    Height as IbcHeight,
+                },
+                commitment::MerkleRoot,
+                connection::{
+                    ConnectionEnd,
+                    ConnectionId,
+                    Counterparty as ConnectionCounterparty,
+                    State as ConnectionState,
+                    Version as ConnectionVersion,
+                },
+            },
+            lightclients::tendermint::{
+                client_state::{
+                    AllowUpdate,
+                    ClientState,
+                },
+                ConsensusState,
+                TrustThreshold,
+            },
+        };
+        use penumbra_ibc::component::{
+            ChannelStateWriteExt as _,
+            ClientStateWriteExt as _,
+            ConnectionStateWriteExt as _,
+            ConsensusStateWriteExt as _,
+        };
+
+        use crate::ibc::host_interface::AstriaHost;
+
+        let [channel] = args else {
+            return Err("usage: ibcchan <channel-id>".to_string());
+        };
+        let channel_id: ChannelId = channel
+            .parse()
+            .map_err(|_| format!("bad channel `{channel}`"))?;
+        let index: u64 = channel
+            .strip_prefix("channel-")
+            .and_then(|digits| digits.parse().ok())
+            .ok_or_else(|| format!("bad channel `{channel}`"))?;
+        let chain = self.chain()?;
+        if chain.stored_height().await == 0 {
+            self.emit("ibcchan err=height0");
+            return Ok(());
+        }
+
+        let client_id = ClientId::new(ClientType::new("07-tendermint".to_string()), index)
+            .map_err(|e| e.to_string())?;
+        let connection_id = ConnectionId::new(index);
+        let latest_height = IbcHeight::new(1, 10).map_err(|e| e.to_string())?;
+        let client_state = ClientState::new(
+            ibc_types::core::connection::ChainId::new("counterparty".to_string(), 1),
+            TrustThreshold::TWO_THIRDS,
+            Duration::from_secs(100_000_000),
+            Duration::from_secs(200_000_000),
+            Duration::from_secs(1),
+            latest_height,
+            vec![ibc_proto::ics23::ProofSpec {
+                leaf_spec: None,
+                inner_spec: None,
+                max_depth: 0,
+                min_depth: 0,
+                prehash_key_before_comparison: false,
+            }],
+            vec![],
+            AllowUpdate {
+                after_expiry: true,
+                after_misbehaviour: true,
+            },
+            None,
+        )
+        .map_err(|e| e.to_string())?;
+        let consensus_state = ConsensusState::new(
+            MerkleRoot {
+                hash: vec![1; 32],
+            },
+            block_time(0),
+            Hash::Sha256([2; 32]),
+        );
+        let connection = ConnectionEnd {
+            state: ConnectionState::Open,
+            client_id: client_id.clone(),
+            counterparty: ConnectionCounterparty {
+                client_id: client_id.clone(),
+                connection_id: Some(connection_id.clone()),
+                prefix: Default::default(),
+            },
+            versions: vec![ConnectionVersion::default()],
+            delay_period: Duration::from_secs(0),
+        };
+        let channel_end = ChannelEnd {
+            state: ChannelState::Open,
+            ordering: Order::Unordered,
+            remote: ChannelCounterparty::new(PortId::transfer(), Some(channel_id.clone())),
+            connection_hops: vec![connection_id.clone()],
+            version: ChannelVersion::new("ics20-1".to_string()),
+            upgrade_sequence: 0,
+        };
+
+        let mut delta = chain.app.new_state_delta();
+        delta.put_client(&client_id, client_state);
+        delta
+            .put_verified_consensus_state::<AstriaHost>(latest_height, client_id, consensus_state)
+            .await
+            .map_err(|e| e.to_string())?;
+        delta
+            .put_new_connection(&connection_id, connection)
+            .await
+            .map_err(|e| e.to_string())?;
+        delta.put_channel(&channel_id, &PortId::transfer(), channel_end);
+        delta.put_send_sequence(&channel_id, &PortId::transfer(), 1);
+        delta.put_recv_sequence(&channel_id, &PortId::transfer(), 1);
+        delta.put_ack_sequence(&channel_id, &PortId::transfer(), 1);
+        chain.apply_delta(delta).await;
+        self.emit("ibcchan ok");
+        Ok(())
+    }
+
+    fn op_tx(&mut self, args: &[&str]) -> PResult<()> {
+        let [id, signer, nonce, action_tokens @ ..] = args else {
+            return Err("usage: tx <id> <signer> <nonce> <action> [; <action>]...".to_string());
+        };
+        let signer = self.names.account_index(signer)?;
+        let nonce: u32 = parse_num(nonce)?;
+        let mut actions = Vec::new();
+        for tokens in action_tokens.split(|token| *token == ";") {
+            if tokens.is_empty() {
+                continue;
+            }
+            actions.push(parse_action(&self.names, tokens, &mut self.evids)?);
+        }
+        let body = match TransactionBodyBuilder::new()
+            .nonce(nonce)
+            .chain_id(CHAIN_ID.to_string())
+            .actions(actions)
+            .try_build()
+        {
+            Ok(body) => body,
+            Err(error) => {
+                let _ = classify("tx build", &error_chain(&error));
+                self.emit(format!("tx {id} builderr"));
+                return Ok(());
+            }
+        };
+        let tx = body.sign(&self.names.keys[signer]);
+        let group = tx.group();
+        let bytes = Bytes::from(tx.into_raw().encode_to_vec());
+        let hash: [u8; 32] = Sha256::digest(&bytes).into();
+        if let Some(old_bytes) = self.txs.insert((*id).to_string(), bytes.clone()) {
+            let old_hash: [u8; 32] = Sha256::digest(&old_bytes).into();
+            self.tx_names.remove(&old_hash);
+        }
+        self.tx_names.insert(hash, (*id).to_string());
+        self.emit(format!("tx {id} len={} group={group:?}", bytes.len()));
+        Ok(())
+    }
+
+    async fn op_block(&mut self, args: &[&str]) -> PResult<()> {
+        let names = &self.names;
+        let chain = self
+            .chain
+            .as_mut()
+            .ok_or_else(|| "no chain (missing `genesis`)".to_string())?;
+        chain.reset_round();
+        let height = chain.stored_height().await + 1;
+
+        // One output line per given id, in the given order.
+        let mut lines: Vec<String> = vec![String::new(); args.len()];
+        // (position in `args`, id, checked tx)
+        let mut included: Vec<(usize, &str, Arc<CheckedTransaction>)> = Vec::new();
+        for (position, id) in args.iter().enumerate() {
+            let Some(bytes) = self.txs.get(*id) else {
+                lines[position] = format!("txres {id} unknown");
+                continue;
+            };
+            match CheckedTransaction::new(bytes.clone(), chain.app.state()).await {
+                Ok(tx) => included.push((position, *id, Arc::new(tx))),
+                Err(error) => {
+                    let class = classify("block construct", &error_chain(&error));
+                    lines[position] = format!("txres {id} constructerr={class}");
+                }
+            }
+        }
+        let checked: Vec<Arc<CheckedTransaction>> =
+            included.iter().map(|(_, _, tx)| tx.clone()).collect();
+
+        // `finalize_block` silently drops txs failing with a fatal error.  To be able to report
+        // why, first execute the txs the same way on the working state and throw that state away.
+        let (dry_run_errors, deposits) = chain.dry_run(names, height, &checked).await;
+        let committed: Vec<Arc<CheckedTransaction>> = checked
+            .iter()
+            .zip(&dry_run_errors)
+            .filter(|(_, error)| error.is_none())
+            .map(|(tx, _)| tx.clone())
+            .collect();
+
+        let data = chain
+            .block_data(height, &checked, &committed, deposits)
+            .await;
+        let injected_count = data.len() - checked.len();
+        let request = Chain::finalize_request(names, height, data);
+        let response = match chain
+            .app
+            .finalize_block(request, chain.storage.clone())
+            .await
+        {
+            Ok(response) => response,
+            Err(error) => {
+                let class = classify("block finalize", &report_chain(&error));
+                chain.reset_round();
+                for line in lines.iter().filter(|line| !line.is_empty()) {
+                    self.out.push_str(line);
+                    self.out.push('\n');
+                }
+                self.out.push_str(&format!("block err={class}\n"));
+                return Ok(());
+            }
+        };
+
+        // Map the returned results to tx ids (the first `injected_count` results belong to the
+        // injected data items).  The results may be a strict subsequence of the included txs.
+        let user_results: &[ExecTxResult] = response
+            .tx_results
+            .get(injected_count..)
+            .unwrap_or_default();
+        if user_results.len() == included.len() {
+            for ((position, id, _), result) in included.iter().zip(user_results) {
+                lines[*position] = format!("txres {id} code={}", result.code.value());
+            }
+        } else {
+            let succeeded: BTreeSet<[u8; 32]> = chain
+                .app
+                .write_batch
+                .as_ref()
+                .map(|write_batch| {
+                    write_batch
+                        .execution_results
+                        .keys()
+                        .map(|tx_id| tx_id.get())
+                        .collect()
+                })
+                .unwrap_or_default();
+            let mut result_index = 0;
+            for (index, (position, id, tx)) in included.iter().enumerate() {
+                if succeeded.contains(&tx.id().get()) {
+                    let code = user_results
+                        .get(result_index)
+                        .map_or(0, |result| result.code.value());
+                    result_index += 1;
+                    lines[*position] = format!("txres {id} code={code}");
+                    continue;
+                }
+                // Not succeeded: either failed non-fatally (has an error result; only `IbcRelay`
+                // can do that) or was dropped.  Ambiguous only if both kinds occur in one block;
+                // then assign greedily.
+                let next_is_failure = user_results
+                    .get(result_index)
+                    .is_some_and(|result| result.code.is_err());
+                if next_is_failure {
+                    let code = user_results[result_index].code.value();
+                    result_index += 1;
+                    lines[*position] = format!("txres {id} code={code}");
+                } else {
+                    let class = match dry_run_errors.get(index) {
+                        Some(Some(text)) => classify("block dropped", text),
+                        _ => "?",
+                    };
+                    lines[*position] = format!("txres {id} dropped={class}");
+                }
+            }
+        }
+
+        let app_hash = hex16(response.app_hash.as_bytes());
+        let updates = show_validator_updates(names, &response.validator_updates);
+        let commit_result = chain.app.commit(chain.storage.clone()).await;
+        for line in lines.iter().filter(|line| !line.is_empty()) {
+            self.out.push_str(line);
+            self.out.push('\n');
+        }
+        if let Err(error) = commit_result {
+            let _ = classify("block commit", &report_chain(&error));
+            self.out.push_str("block err=commit\n");
+            return Ok(());
+        }
+        self.out.push_str(&format!(
+            "block height={height} apphash={app_hash} vupdates={updates}\n"
+        ));
+        Ok(())
+    }
+
+    async fn op_begin(&mut self) -> PResult<()> {
+        let names = &self.names;
+        let chain = self
+            .chain
+            .as_mut()
+            .ok_or_else(|| "no chain (missing `genesis`)".to_string())?;
+        if chain.manual.is_some() {
+            self.out.push_str("begin err=inblock\n");
+            return Ok(());
+        }
+        chain.reset_round();
+        let height = chain.stored_height().await + 1;
+        let data = chain.block_data(height, &[], &[], HashMap::new()).await;
+        let expanded = chain.expanded_block_data(height, &data).await?;
+
+        // Mirror `finalize_block`: apply prices from the (empty) extended commit info, if any.
+        if let Some(extended_commit_info_with_proof) = &expanded.extended_commit_info_with_proof {
+            let mut delta = StateDelta::new(chain.app.state.clone());
+            if let Err(error) = vote_extension::apply_prices_from_vote_extensions(
+                &mut delta,
+                extended_commit_info_with_proof.extended_commit_info(),
+                block_time(height).into(),
+                height,
+            )
+            .await
+            {
+                let class = classify("begin prices", &report_chain(&error));
+                drop(delta);
+                chain.reset_round();
+                self.out.push_str(&format!("begin err={class}\n"));
+                return Ok(());
+            }
+            let _ = chain.app.apply(delta);
+        }
+
+        let block_data = BlockData {
+            misbehavior: vec![],
+            height: Height::try_from(height).unwrap(),
+            time: block_time(height),
+            next_validators_hash: Hash::default(),
+            proposer_address: Chain::proposer(names),
+        };
+        let upgrade_change_hashes = match chain.app.pre_execute_transactions(block_data).await {
+            Ok(hashes) => hashes,
+            Err(error) => {
+                let class = classify("begin", &report_chain(&error));
+                chain.reset_round();
+                self.out.push_str(&format!("begin err={class}\n"));
+                return Ok(());
+            }
+        };
+        if let Err(error) =
+            super::ensure_upgrade_change_hashes_as_expected(&expanded, &upgrade_change_hashes)
+        {
+            let class = classify("begin upgrade hashes", &report_chain(&error));
+            chain.reset_round();
+            self.out.push_str(&format!("begin err={class}\n"));
+            return Ok(());
+        }
+        chain.manual = Some(ManualBlock {
+            height,
+            executed: Vec::new(),
+        });
+        self.out.push_str(&format!("begin height={height}\n"));
+        Ok(())
+    }
+
+    async fn op_exec(&mut self, args: &[&str]) -> PResult<()> {
+        let [id] = args else {
+            return Err("usage: exec <id>".to_string());
+        };
+        let chain = self
+            .chain
+            .as_mut()
+            .ok_or_else(|| "no chain (missing `genesis`)".to_string())?;
+        if chain.manual.is_none() {
+            self.out.push_str(&format!("exec {id} err=noblock\n"));
+            return Ok(());
+        }
+        let Some(bytes) = self.txs.get(*id) else {
+            self.out.push_str(&format!("exec {id} unknown\n"));
+            return Ok(());
+        };
+        let tx = match CheckedTransaction::new(bytes.clone(), chain.app.state()).await {
+            Ok(tx) => Arc::new(tx),
+            Err(error) => {
+                let class = classify("exec construct", &error_chain(&error));
+                self.out
+                    .push_str(&format!("exec {id} constructerr={class}\n"));
+                return Ok(());
+            }
+        };
+        let before = working_state_fingerprint(&chain.app).await;
+        match chain.app.execute_transaction(tx.clone()).await {
+            Ok(events) => {
+                chain
+                    .manual
+                    .as_mut()
+                    .unwrap()
+                    .executed
+                    .push(ExecutedTransaction {
+                        tx,
+                        exec_result: ExecTxResult {
+                            events,
+                            ..Default::default()
+                        },
+                    });
+                self.out.push_str(&format!("exec {id} ok\n"));
+            }
+            Err(error) => {
+                let text = error_chain(&error);
+                let class = classify("exec", &text);
+                // Mirror `finalize_block`: a non-fatal failure is still part of the block, with
+                // an error result.
+                if matches!(
+                    error,
+                    CheckedTransactionExecutionError::CheckedAction(
+                        CheckedActionExecutionError::NonFatalExecution { .. }
+                    )
+                ) {
+                    chain
+                        .manual
+                        .as_mut()
+                        .unwrap()
+                        .executed
+                        .push(ExecutedTransaction {
+                            tx,
+                            exec_result: ExecTxResult {
+                                code: Code::Err(
+                                    astria_core::protocol::abci::AbciErrorCode::TRANSACTION_FAILED_EXECUTION
+                                        .value(),
+                                ),
+                                log: text,
+                                info: "transaction failed execution".to_string(),
+                                ..ExecTxResult::default()
+                            },
+                        });
+                }
+                let after = working_state_fingerprint(&chain.app).await;
+                self.out.push_str(&format!(
+                    "exec {id} err={class} unchanged={}\n",
+                    before == after
+                ));
+            }
+        }
+        Ok(())
+    }
+
+    async fn op_end(&mut self) -> PResult<()> {
+        let names = &self.names;
+        let chain = self
+            .chain
+            .as_mut()
+            .ok_or_else(|| "no chain (missing `genesis`)".to_string())?;
+        let Some(ManualBlock {
+            height,
+            executed,
+        }) = chain.manual.take()
+        else {
+            self.out.push_str("end err=noblock\n");
+            return Ok(());
+        };
+        let checked: Vec<Arc<CheckedTransaction>> = executed
+            .iter()
+            .map(|executed_tx| executed_tx.tx.clone())
+            .collect();
+        let deposits = chain.app.state().get_cached_block_deposits();
+        let data = chain.block_data(height, &checked, &checked, deposits).await;
+        let expanded = match chain.expanded_block_data(height, &data).await {
+            Ok(expanded) => expanded,
+            Err(text) => {
+                let class = classify("end block data", &text);
+                chain.reset_round();
+                self.out.push_str(&format!("end err={class}\n"));
+                return Ok(());
+            }
+        };
+        if let Err(error) = chain
+            .app
+            .post_execute_transactions(
+                block_hash(height),
+                Height::try_from(height).unwrap(),
+                block_time(height),
+                Chain::proposer(names),
+                expanded,
+                executed,
+            )
+            .await
+        {
+            let class = classify("end", &report_chain(&error));
+            chain.reset_round();
+            self.out.push_str(&format!("end err={class}\n"));
+            return Ok(());
+        }
+        // The tail of `finalize_block`.
+        let PostTransactionExecutionResult {
+            tx_results,
+            validator_updates,
+            ..
+        } = chain
+            .app
+            .state
+            .object_get(POST_TRANSACTION_EXECUTION_RESULT_KEY)
+            .expect("post_transaction_execution_result must be present");
+        if let Err(error) = chain
+            .app
+            .prepare_commit(chain.storage.clone(), tx_results)
+            .await
+        {
+            let class = classify("end prepare_commit", &report_chain(&error));
+            chain.reset_round();
+            self.out.push_str(&format!("end err={class}\n"));
+            return Ok(());
+        }
+        if let Err(error) = chain.app.commit(chain.storage.clone()).await {
+            let _ = classify("end commit", &report_chain(&error));
+            self.out.push_str("end err=commit\n");
+            return Ok(());
+        }
+        let updates = show_validator_updates(names, &validator_updates);
+        self.out
+            .push_str(&format!("end height={height} vupdates={updates}\n"));
+        Ok(())
+    }
+
+    async fn op_dump(&mut self) -> PResult<()> {
+        let names = &self.names;
+        let chain = self
+            .chain
+            .as_ref()
+            .ok_or_else(|| "no chain (missing `genesis`)".to_string())?;
+        let state = chain.app.state();
+        let mut out = String::new();
+        let _ = writeln!(out, "dump begin");
+
+        // bal
+        for (account, address) in names.addresses.iter().enumerate() {
+            for (asset_index, asset) in names.assets.iter().enumerate() {
+                let balance = state
+                    .get_account_balance(address, asset)
+                    .await
+                    .map_err(|e| report_chain(&e))?;
+                if balance != 0 {
+                    let _ = writeln!(out, "bal a{account} s{asset_index} {balance}");
+                }
+            }
+        }
+        // nonce
+        for (account, address) in names.addresses.iter().enumerate() {
+            let nonce = state
+                .get_account_nonce(address)
+                .await
+                .map_err(|e| report_chain(&e))?;
+            if nonce != 0 {
+                let _ = writeln!(out, "nonce a{account} {nonce}");
+            }
+        }
+        // escrow
+        for channel in DUMP_CHANNELS {
+            let channel_id: ibc_types::core::channel::ChannelId = channel.parse().unwrap();
+            for (asset_index, asset) in names.assets.iter().enumerate() {
+                let balance = state
+                    .get_ibc_channel_balance(&channel_id, asset)
+                    .await
+                    .map_err(|e| report_chain(&e))?;
+                if balance != 0 {
+                    let _ = writeln!(out, "escrow {channel} s{asset_index} {balance}");
+                }
+            }
+        }
+        // bridge
+        let mut bridge_accounts = Vec::new();
+        for (account, address) in names.addresses.iter().enumerate() {
+            let Some(rollup_id) = state
+                .get_bridge_account_rollup_id(address)
+                .await
+                .map_err(|e| report_chain(&e))?
+            else {
+                continue;
+            };
+            bridge_accounts.push(account);
+            let asset = match state.get_bridge_account_ibc_asset(address).await {
+                Ok(asset) => names.show_asset(&asset),
+                Err(_) => "-".to_string(),
+            };
+            let show_opt_address = |address: Option<[u8; ADDRESS_LEN]>| match address {
+                Some(bytes) => names.show_address(&bytes),
+                None => "-".to_string(),
+            };
+            let sudo = show_opt_address(
+                state
+                    .get_bridge_account_sudo_address(address)
+                    .await
+                    .map_err(|e| report_chain(&e))?,
+            );
+            let withdrawer = show_opt_address(
+                state
+                    .get_bridge_account_withdrawer_address(address)
+                    .await
+                    .map_err(|e| report_chain(&e))?,
+            );
+            let disabled = match state
+                .get_bridge_account_disabled_status(address)
+                .await
+                .map_err(|e| report_chain(&e))?
+            {
+                Some(true) => "1",
+                Some(false) => "0",
+                None => "-",
+            };
+            let last_tx = match state
+                .get_last_transaction_id_for_bridge_account(address)
+                .await
+                .map_err(|e| report_chain(&e))?
+            {
+                Some(tx_id) => match self.tx_names.get(&tx_id.get()) {
+                    Some(name) => name.clone(),
+                    None => hex::encode(tx_id.get())[..8].to_string(),
+                },
+                None => "-".to_string(),
+            };
+            let _ = writeln!(
+                out,
+                "bridge a{account} rollup={} asset={asset} sudo={sudo} withdrawer={withdrawer} \
+                 disabled={disabled} lasttx={last_tx}",
+                names.show_rollup(&rollup_id),
+            );
+        }
+        // wevent: scan the keys under the bridge account's withdrawal event prefix, plus point
+        // lookups of every event id seen in the script so far.
+        for account in bridge_accounts {
+            let address = &names.addresses[account];
+            let prefix = format!(
+                "{}/withdrawal_event/",
+                AccountPrefixer::new("bridge/account/", address)
+            );
+            let mut event_ids: BTreeSet<String> = self.evids.clone();
+            let mut keys = std::pin::pin!(state.prefix_keys(&prefix));
+            while let Some(key) = keys.next().await {
+                let key = key.map_err(|e| e.to_string())?;
+                if let Some(event_id) = key.strip_prefix(&prefix) {
+                    event_ids.insert(event_id.to_string());
+                }
+            }
+            for event_id in event_ids {
+                if let Some(block_number) = state
+                    .get_withdrawal_event_rollup_block_number(address, &event_id)
+                    .await
+                    .map_err(|e| report_chain(&e))?
+                {
+                    let _ = writeln!(out, "wevent a{account} {event_id} {block_number}");
+                }
+            }
+        }
+        // sudo / ibcsudo / relayer
+        match state.get_sudo_address().await {
+            Ok(bytes) => {
+                let _ = writeln!(out, "sudo {}", names.show_address(&bytes));
+            }
+            Err(_) => {
+                let _ = writeln!(out, "sudo -");
+            }
+        }
+        match state.get_ibc_sudo_address().await {
+            Ok(bytes) => {
+                let _ = writeln!(out, "ibcsudo {}", names.show_address(&bytes));
+            }
+            Err(_) => {
+                let _ = writeln!(out, "ibcsudo -");
+            }
+        }
+        for (account, address) in names.addresses.iter().enumerate() {
+            if state
+                .is_ibc_relayer(address)
+                .await
+                .map_err(|e| report_chain(&e))?
+            {
+                let _ = writeln!(out, "relayer a{account}");
+            }
+        }
+        // fees (same order as `FEE_KINDS`)
+        fee_line!(state, out, "transfer", Transfer);
+        fee_line!(state, out, "rollup", RollupDataSubmission);
+        fee_line!(state, out, "ics20w", Ics20Withdrawal);
+        fee_line!(state, out, "initbridge", InitBridgeAccount);
+        fee_line!(state, out, "lock", BridgeLock);
+        fee_line!(state, out, "unlock", BridgeUnlock);
+        fee_line!(state, out, "btransfer", BridgeTransfer);
+        fee_line!(state, out, "bsudo", BridgeSudoChange);
+        fee_line!(state, out, "ibcrelay", IbcRelay);
+        fee_line!(state, out, "valupdate", ValidatorUpdate);
+        fee_line!(state, out, "feeasset", FeeAssetChange);
+        fee_line!(state, out, "feechange", FeeChange);
+        fee_line!(state, out, "relayer", IbcRelayerChange);
+        fee_line!(state, out, "sudochange", SudoAddressChange);
+        fee_line!(state, out, "ibcsudo", IbcSudoChange);
+        fee_line!(state, out, "recover", RecoverIbcClient);
+        fee_line!(state, out, "pairs", CurrencyPairsChange);
+        fee_line!(state, out, "markets", MarketsChange);
+        // feeasset
+        let mut fee_assets = Vec::new();
+        let mut stream = std::pin::pin!(state.allowed_fee_assets());
+        while let Some(asset) = stream.next().await {
+            let asset = asset.map_err(|e| report_chain(&e))?;
+            fee_assets.push(names.show_asset(&asset));
+        }
+        fee_assets.sort_by_key(|name| name_sort_key(name));
+        for name in fee_assets {
+            let _ = writeln!(out, "feeasset {name}");
+        }
+        // validators: the pre-Aspen validator set if it is still stored, else the post-Aspen
+        // per-validator storage.
+        let mut validators: Vec<(String, u32)> = Vec::new();
+        if let Ok(validator_set) = state.pre_aspen_get_validator_set().await {
+            for update in validator_set.updates() {
+                validators.push((
+                    names.show_verification_key(update.verification_key.as_bytes()),
+                    update.power,
+                ));
+            }
+        } else {
+            let mut stream = std::pin::pin!(state.get_validators());
+            while let Some(update) = stream.next().await {
+                let update = update.map_err(|e| report_chain(&e))?;
+                validators.push((
+                    names.show_verification_key(update.verification_key.as_bytes()),
+                    update.power,
+                ));
+            }
+        }
+        validators.sort_by_key(|(name, _)| name_sort_key(name));
+        for (name, power) in validators {
+            let _ = writeln!(out, "validator {name} power={power}");
+        }
+        match state.get_validator_count().await {
+            Ok(count) => {
+                let _ = writeln!(out, "valcount {count}");
+            }
+            Err(_) => {
+                let _ = writeln!(out, "valcount -");
+            }
+        }
+        // ephemeral: block fees and cached deposits
+        let mut block_fees: Vec<(String, u128)> = state
+            .get_block_fees()
+            .into_iter()
+            .map(|(asset, amount)| (names.show_asset(&asset), amount))
+            .collect();
+        block_fees.sort_by_key(|(name, _)| name_sort_key(name));
+        for (name, amount) in block_fees {
+            if amount != 0 {
+                let _ = writeln!(out, "blockfees {name} {amount}");
+            }
+        }
+        let mut deposits: Vec<(String, usize)> = state
+            .get_cached_block_deposits()
+            .into_iter()
+            .map(|(rollup_id, deposits)| (names.show_rollup(&rollup_id), deposits.len()))
+            .collect();
+        deposits.sort_by_key(|(name, _)| name_sort_key(name));
+        for (name, count) in deposits {
+            if count != 0 {
+                let _ = writeln!(out, "deposits {name} {count}");
+            }
+        }
+        // rawhash
+        let (verifiable, nonverifiable) = raw_hashes(state).await;
+        let _ = writeln!(
+            out,
+            "rawhash {} {}",
+            hex16(&verifiable),
+            hex16(&nonverifiable)
+        );
+        let _ = writeln!(out, "dump end");
+        self.out.push_str(&out);
+        Ok(())
+    }
+}
+
+#[tokio::test]
+async fn drive() {
+    let Ok(input_path) = std::env::var("VERIF_IN") else {
+        return;
+    };
+    let script = std::fs::read_to_string(&input_path).expect("VERIF_IN should be readable");
+    if debug_enabled() {
+        std::panic::set_hook(Box::new(|info| eprintln!("[verif] panic: {info}")));
+    } else {
+        std::panic::set_hook(Box::new(|_| {}));
+    }
+    let mut harness = Harness::new();
+    for line in script.lines() {
+        harness.run_line(line).await;
+    }
+    // Drop the chain (and hence the app) before restoring the default hook.
+    harness.chain = None;
+    let _ = std::panic::take_hook();
+    match std::env::var("VERIF_OUT") {
+        Ok(output_path) => {
+            std::fs::write(&output_path, &harness.out).expect("VERIF_OUT should be writable");
+        }
+        Err(_) => print!("{}", harness.out),
+    }
+}
